@@ -386,6 +386,12 @@ def rule_r6(ctx) -> List[R.Inst]:
     return insts
 
 
+def rule_dep(ctx):
+    """obligations inherited from shared code reached through the call graph (sa/props/deps.py)"""
+    from .deps import dep_insts
+    return dep_insts(ctx, "C03", ["reamber.sm.SMMapSet.SMMapSet.write"], skip_groups=())
+
+
 SPECS = [
     RuleSpec("C03.R1", rule_r1, 22, "A1", "header tag table with inverse transforms"),
     RuleSpec("C03.R2", rule_r2, 22, "A9", "every alternative of every header element has shape '#TAG:…;'"),
@@ -393,6 +399,7 @@ SPECS = [
     RuleSpec("C03.R4", rule_r4, 2, "A5", "tempo and stop pairing: beats of a list zipped with that same list"),
     RuleSpec("C03.R5", rule_r5, 5, "A1", "per-chart header order equals the reader's positions"),
     RuleSpec("C03.R6", rule_r6, 2, "A7", "note rows are as wide as the chart type's key count"),
+    RuleSpec("C03.D", rule_dep, 1, "M0", "rules of the shared code (timing engine, list classes, stacker) that the operations of this property reach"),
 ]
 
 META = dict(
